@@ -152,7 +152,8 @@ static void oracle_pair (const char *op, int hf, const T *f0, const T *f1, int h
         for (int k = 0; k < ntr; k++) { int ok = rep9 (tr[k]) && ref_mul (a, tr[k], e); if (ok) { rok = 1; if (eqT128 (r1, e)) rmatch = 1; } }
         if (ret && !rmatch) { orc (rok ? "pair-reverse-value" : "pair-true-on-overflow", "%s returned TRUE but reverse is not (reverse x t^-1) with per-term rounding%s [%s]", op, rok ? "" : " (the inverse operand or the result is not representable)", g_pair_shape); return; }
     }
-    if (!ret && fok && rok) orc ("pair-spurious-false", "%s returned FALSE although every result is representable", op);
+    /* FALSE is also justified when the operand matrix itself is not representable (rotate: both matrices contain -sin) */
+    if (!ret && fok && rok && rep9 (tf)) orc ("pair-spurious-false", "%s returned FALSE although every result is representable", op);
     stat (ret ? "pair:TRUE" : "pair:FALSE");
 }
 
